@@ -5,6 +5,7 @@ import (
 	"runtime"
 	"strconv"
 	"sync"
+	"time"
 
 	"github.com/sheerbytes/sheerbytes/internal/verifhook"
 )
@@ -26,7 +27,12 @@ type task struct {
 	cur      *park // where the task is parked now (nil = finished)
 	panicked any
 	label    string
+	hung     bool // did not reach a hook point or its end within stepTimeout
 }
+
+// stepTimeout bounds how long a resumed task may run before it parks again or
+// ends; the code under test has no wait longer than 1 s between hook points.
+const stepTimeout = 30 * time.Second
 
 type stepper struct {
 	mu    sync.Mutex
@@ -90,6 +96,9 @@ func (t *task) wait() {
 	case p := <-t.parked:
 		t.cur = &p
 	case <-t.done:
+		t.cur = nil
+	case <-time.After(stepTimeout):
+		t.hung = true
 		t.cur = nil
 	}
 }
